@@ -109,6 +109,8 @@ def generate(rng, tier):
         # buffer that fills are invisible in a dozen requests), optionally after an update_noise (which draws through
         # get_samples itself and must leave no trace)
         at = rng.randrange(len(ops) + 1)
+        while at > 0 and ops[at - 1]["op"] == "fault_get":
+            at += 1             # never between a failed request and the re-synchronisation that follows it
         burst = [{"op": "get", "n": rng.choice([1, 2, 3, 5, 8, 16, 31, 64]), "rep": rng.choice([130, 200, 260, 300, 520])}]
         if rng.random() < 0.6:
             burst.insert(0, {"op": "update_noise", "m": rng.choice([10, 1000]), "pol": rng.randrange(pols)})
@@ -536,6 +538,8 @@ def execute(sc, ctx):
         else:
             if last_ctrl == "fault" and not is_ant and kind != "set_time":
                 return          # a bare stream is only re-synchronised by set_time
+            if last_ctrl == "fault" and kind == "update_noise":
+                return          # not one of the documented ways of re-synchronising: nothing the statement defines
             flush()
             epoch_ts = [[] for _ in refs]
             if kind == "set_time":
